@@ -17,6 +17,26 @@ NOT_APPLICABLE = {
 
 exec(open(os.path.join(VERIF, 'tools', 'claims.py')).read())
 
+# rules added after the blind third seeding batch: (technique suffix, text suffix)
+EXTRA = {
+ 'C01': ('load-placement rule (no look-through of a defining load) + straight-line emitter rule', 'Also decided: no lowering arm replaces a loaded operand by a later re-read of the load\'s address (R01.8; two known findings: range over an array variable, boxing of >1 MiB values), and Alloc/Load/Store/zero-init emit at the current insertion point (R01.9).'),
+ 'C02': ('flow-sensitive source-type rule + single-rounding template', 'Also decided: the source type handed to castInt is the operand\'s type as it was before any overwrite (CFG reachability from assignments to X.Type), and integer->float conversion is one uitofp/sitofp to the destination width chosen by source signedness (R02.7).'),
+ 'C03': ('CFG must-pass for the null_pointer_is_valid attribute', 'Also decided: every function created with a Go background gets null_pointer_is_valid on every path of NewFuncEx (R03.8).'),
+ 'C04': ('counter-advance must-pass rule', 'Also decided: a next* counter read as an identifier (defer statement id, condition bit) is advanced on every returning path after the read (R04.7).'),
+ 'C05': ('codec arm self-consistency rule', 'Also decided: in decoderune/encoderune the width tested, the continuation bytes checked, the bytes combined, the position advance and the returned length agree per arm; decoding errors resume at start+1; overlong, surrogate and out-of-range values are rejected by the arm of their width (R05.6).'),
+ 'C06': ('empty-stub rule over the map code\'s callees + CFG write-protocol rules + partial evaluation of the emptyRest guard + sibling dispatch rule', 'Also decided: no same-package callee of the map code is an empty stub (R06.7); write flag set after hashing and cleared before every return, growWork before bucket selection while growing, h.count updated with the slot, emptyRest stored only after the next chain position was consulted - for the last slot through the overflow bucket (R06.8); both interface hash functions hash the data word for pointer-shaped types and the pointee otherwise (R06.9).'),
+ 'C07': ('CFG must-pass through types.NewMethodSet', 'Also decided: every arm of abiUncommonMethodSet for a kind that can carry methods reaches its result only through types.NewMethodSet (R07.6).'),
+ 'C08': ('accumulation-order rule + exact-comparison rule for layout reuse', 'Also decided: Offsetsof adds a field\'s own closure words only after recording its offset; a cached LLVM struct is reused for another named type only on field-type identity (R08.8).'),
+ 'C10': ('zeroed-slot definition rule + constant-argument rule on select probes', 'Also decided: every receive destination handed to the runtime is a zero-initialising allocation (R10.8); every receive probe that accepts registered select-senders gets the select\'s own send-channel set and each probing order covers both directions (R10.9).'),
+ 'C11': ('all-definitions heap rule + lookup/insert atomicity on the CFG', 'Also decided: every definition of the record handed to pthreadCreate is a GC-heap allocation; get-or-create of per-address wait state has no unlock between the failed lookup and the insert (R11.8).'),
+ 'C12': ('linkage rule for replaceable fallbacks', 'Also decided: link-time replaceable initialiser fallbacks are weak, never ODR/inlinable (R12.3).'),
+ 'C13': ('who-may-call rule (os.Lstat) + CFG must-pass for the compiler hash', 'Also decided: input-file digests use os.Stat, never os.Lstat (R13.9); flags.UpdateConfig assigns Config.CompilerHash on every successful path (R13.10).'),
+}
+for pid, (tq, tx) in EXTRA.items():
+    if pid in CLAIMS:
+        CLAIMS[pid]['technique'] += ' + ' + tq
+        CLAIMS[pid]['text'] += ' ' + tx
+
 props = [json.loads(l)['id'] for l in open(os.path.join(VERIF, 'properties.jsonl'))]
 registered = subprocess.run([os.path.join(VERIF, 'bin', 'llgoverif'), 'list'], capture_output=True, text=True).stdout.split()
 
